@@ -24,4 +24,11 @@ if [ "$1" = "setup" ]; then
 fi
 export PYTHONPATH="$HERE${PYTHONPATH:+:$PYTHONPATH}"
 export PYTHONDONTWRITEBYTECODE=1
-exec "$VENV/bin/python" -m pyvc.cli "$@"
+# private scratch directory: the checks (and codemodder itself, which leaves its semgrep rule files behind) write temporary files only here
+RUNTMP="$(mktemp -d "${TMPDIR:-/tmp}/pyvc_run_XXXXXX")" || exit 3
+TMPDIR="$RUNTMP"
+export TMPDIR
+"$VENV/bin/python" -m pyvc.cli "$@"
+rc=$?
+rm -rf "$RUNTMP"
+exit $rc
